@@ -854,6 +854,24 @@ def _norm_block(lst, fn):
                 st.body = rest
                 ast.fix_missing_locations(st)
                 n += 1
+        # while A: if B: break; rest   ->   while A and not B: rest
+        if isinstance(st, ast.While) and not (isinstance(st.test, ast.Constant)) and not st.orelse and len(st.body) >= 2:
+            first = st.body[0]
+            if isinstance(first, ast.If) and len(first.body) == 1 and isinstance(first.body[0], ast.Break) and not first.orelse \
+                    and not any(isinstance(x, ast.Break) and _loop_of(x, st) for b in st.body[1:] for x in ast.walk(b)):
+                t = first.test
+                flip = {ast.NotIn: ast.In, ast.In: ast.NotIn, ast.Is: ast.IsNot, ast.IsNot: ast.Is, ast.Eq: ast.NotEq, ast.NotEq: ast.Eq,
+                        ast.Lt: ast.GtE, ast.GtE: ast.Lt, ast.Gt: ast.LtE, ast.LtE: ast.Gt}
+                if isinstance(t, ast.UnaryOp) and isinstance(t.op, ast.Not):
+                    neg = t.operand
+                elif isinstance(t, ast.Compare) and len(t.ops) == 1 and type(t.ops[0]) in flip:
+                    neg = ast.Compare(left=t.left, ops=[flip[type(t.ops[0])]()], comparators=t.comparators)
+                else:
+                    neg = ast.UnaryOp(op=ast.Not(), operand=t)
+                st.test = ast.BoolOp(op=ast.And(), values=[st.test, neg])
+                st.body = st.body[1:]
+                ast.fix_missing_locations(st)
+                n += 1
         # [f(x) for x in xs]  as a statement   ->   for x in xs: f(x)
         if isinstance(st, ast.Expr) and isinstance(st.value, ast.ListComp) and len(st.value.generators) == 1 \
                 and not st.value.generators[0].is_async:
